@@ -452,6 +452,20 @@ def run(index, rep, tier):
                     rep.check(ok, "R10.12", m.qualname, "is_mutable set to a computed value: %s" % norm(v)[:40], fn_where(m, a), "%s: `%s`" % (m.name, norm_stmt(a)[:50]),
                               "%s sets the namespace's is_mutable to `%s`: anything other than False or the saved state `%s` itself can open a namespace that was immutable when it was handed to the reader - an unknown label in the source then adds a member to a namespace that must never gain members (and is re-locked afterwards, so nothing shows)" % (m.qualname, norm(v)[:50], sv))
         rep.floor("R10.12", "stores into is_mutable in the symbol mapper", 4, nst)
+        # the readers themselves: a lock may be lifted only to the state the mapper saved, never to a constant True
+        nrd = 0
+        for m_ in sorted(index.modules):
+            if not m_.startswith("dendropy.dataio.") or m_ == "dendropy.dataio.nexusprocessing":
+                continue
+            for fi in index.functions_in_module(m_):
+                for a in walk_no_nested(fi.node):
+                    if isinstance(a, ast.Assign) and isinstance(a.targets[0], ast.Attribute) and a.targets[0].attr == "is_mutable":
+                        nrd += 1
+                        v = a.value
+                        ok = (isinstance(v, ast.Constant) and v.value is False) or (isinstance(v, ast.Attribute) and v.attr == sorted(saved)[0])
+                        rep.check(ok, "R10.12", fi.qualname, "is_mutable set to %s by a reader" % norm(v)[:40], fn_where(fi, a), "%s: `%s`" % (fi.name, norm_stmt(a)[:50]),
+                                  "%s sets the namespace's is_mutable to `%s`: the lock it overrides may be the reader's own (the symbol mapper locks every namespace while parsing) or the CALLER's - an immutable namespace handed to the reader then gains members (a TREES block with TRANSLATE and no TAXA block adds its taxa to it without error); only the state the mapper saved (`%s`) says which" % (fi.qualname, norm(v)[:40], sorted(saved)[0]))
+        rep.ob("R10.12", "src/dendropy/dataio", "%d stores into is_mutable in the readers examined" % nrd, True)
 
     # ---- R10.13 None is not the string "None"
     with rep.section("R10.13"):
